@@ -14,6 +14,7 @@ pub enum Profile {
     Blackout, // long blackouts, full windows, then probes
     Rate,     // backlog-heavy, logs Step lines (bucket monitor)
     Frag,     // sizes around fragment boundaries, small windows of frames in flight, heavy reorder/dup
+    Stale,    // pauses long enough for sync frames, every sync frame copied and the copy delivered seconds later, after newer data
 }
 
 pub fn profile_from(s: &str) -> Profile {
@@ -22,6 +23,7 @@ pub fn profile_from(s: &str) -> Profile {
         "blackout" => Profile::Blackout,
         "rate" => Profile::Rate,
         "frag" => Profile::Frag,
+        "stale" => Profile::Stale,
         _ => Profile::Mixed,
     }
 }
@@ -131,10 +133,13 @@ pub fn run_random(tr: &mut Trace, run: u64, seed: u64, prof: Profile) -> RunStat
         Profile::Blackout => (*r.pick(&[0u64, 5]), 2, 0, 30),
         Profile::Frag => (*r.pick(&[0u64, 10, 30]), *r.pick(&[0u64, 20, 40]), *r.pick(&[0u64, 5]), *r.pick(&[0u64, 50, 300])),
         Profile::Mixed => (*r.pick(&[0u64, 5, 20, 40]), *r.pick(&[0u64, 5, 20]), *r.pick(&[0u64, 0, 5]), *r.pick(&[0u64, 10, 100])),
+        Profile::Stale => (*r.pick(&[10u64, 25, 40]), 0, 0, *r.pick(&[0u64, 20])),
     };
     let latency = *r.pick(&[0u64, 1, 10, 40, 150, 500]);
     let cadence = if prof == Profile::Rate { *r.pick(&[1u64, 1, 1, 2, 5, 20, 50, 200]) } else { *r.pick(&[1u64, 5, 20, 20, 50, 200]) };
+    let cadence = if prof == Profile::Stale { *r.pick(&[20u64, 50, 100]) } else { cadence };
     let rounds = match prof {
+        Profile::Stale => r.range(200, 500),
         Profile::Rate => r.range(100, 600),
         Profile::Blackout => r.range(50, 400),
         _ => r.range(20, 300),
@@ -152,6 +157,8 @@ pub fn run_random(tr: &mut Trace, run: u64, seed: u64, prof: Profile) -> RunStat
     // the credit can fill up under the first regime before the second one shrinks its cap)
     let moderate_first = phased && ph_rng.chance(2, 3);
     let lat = std::cell::Cell::new(lat_first);
+    let stale_period = *r.pick(&[3000u64, 4500, 8000]);
+    let stale_burst = *r.pick(&[100u64, 300, 600]);
     let send_burst = *r.pick(&[1u64, 2, 5, 20]);
     let send_prob = *r.pick(&[5u64, 20, 50, 90]);
     let both_dirs = r.chance(1, 2) || ideal;
@@ -160,7 +167,7 @@ pub fn run_random(tr: &mut Trace, run: u64, seed: u64, prof: Profile) -> RunStat
     let log_steps = prof == Profile::Rate || std::env::var("UVH_LOG_STEPS").is_ok();
 
     tr.line(json!({"ev": "Reset", "run": run, "seed": seed as i64 & 0x3FFFFFFF, "driver": "hc-random", "profile": match prof {
-        Profile::Mixed => "mixed", Profile::Ideal => "ideal", Profile::Blackout => "blackout", Profile::Rate => "rate", Profile::Frag => "frag" },
+        Profile::Mixed => "mixed", Profile::Ideal => "ideal", Profile::Blackout => "blackout", Profile::Rate => "rate", Profile::Frag => "frag", Profile::Stale => "stale" },
         "ideal": ideal, "honest": p.tamper == 0, "cfg": p.cfg_json(), "nch": nch, "latency": latency, "cadence": cadence,
         "ceil_a": p.cfg.bw[0], "ceil_b": p.cfg.bw[1], "phased": phased, "lat_first": lat_first, "lat_second": lat_second, "moderate_first": moderate_first}));
 
@@ -192,7 +199,7 @@ pub fn run_random(tr: &mut Trace, run: u64, seed: u64, prof: Profile) -> RunStat
     // that arrives seconds later - after newer frames of every kind - and sync frames, whose stale ids must do no harm,
     // get one most of the time.  Drawn from a generator of its own, so that the other choices of a run do not depend on it.
     let mut late_rng = Rng::new(seed ^ 0x1A7E_C0B1);
-    let late_mode = matches!(prof, Profile::Mixed | Profile::Blackout | Profile::Frag) && late_rng.chance(1, 3);
+    let late_mode = (matches!(prof, Profile::Mixed | Profile::Blackout | Profile::Frag) && late_rng.chance(1, 3)) || prof == Profile::Stale;
     let late_pct = *late_rng.pick(&[2u64, 5, 10]);
     let mut visit = |p: &mut Pair, tr: &mut Trace, r: &mut Rng, e: usize, faults: bool, st: &mut RunStats, receive: bool| {
         // Client/Server order: flush, handle frames, step, receive
@@ -240,8 +247,8 @@ pub fn run_random(tr: &mut Trace, run: u64, seed: u64, prof: Profile) -> RunStat
             }
             if faults && late_mode {
                 let is_sync = matches!(uflow::verif::Frame::read(&bytes), Some(uflow::verif::Frame::SyncFrame(_)));
-                if late_rng.chance(if is_sync { 60 } else { late_pct }, 100) {
-                    let due = now + lat.get() + *late_rng.pick(&[600u64, 2500, 2500, 7000, 30000]);
+                if late_rng.chance(if is_sync { if prof == Profile::Stale { 100 } else { 60 } } else if prof == Profile::Stale { 0 } else { late_pct }, 100) {
+                    let due = now + lat.get() + if prof == Profile::Stale { (stale_period - now % stale_period) + late_rng.range(20, stale_burst + 500) } else { *late_rng.pick(&[600u64, 2500, 2500, 7000, 30000]) };
                     st.dupd += 1;
                     tr.line(json!({"ev": "Net", "dir": dir, "idx": idx, "fate": "late", "due": due}));
                     p.launch(dir, idx, bytes.clone(), due);
@@ -274,6 +281,8 @@ pub fn run_random(tr: &mut Trace, run: u64, seed: u64, prof: Profile) -> RunStat
             if p.dead {
                 break;
             }
+            // stale profile: short bursts of packets of all modes, then silence for longer than the sync time-out (2 s / RTO)
+            let stale_quiet = prof == Profile::Stale && (p.t_ms() % stale_period) >= stale_burst;
             let light = phased && ((round >= rounds / 3 && round < 2 * rounds / 3) || (moderate_first && round < rounds / 3));
             if phased && round == rounds / 3 {
                 lat.set(lat_second);
@@ -285,6 +294,7 @@ pub fn run_random(tr: &mut Trace, run: u64, seed: u64, prof: Profile) -> RunStat
                     p.send(tr, e, ph_rng.below(nch) as u8, *ph_rng.pick(&[SendMode::Unreliable, SendMode::Reliable]), len.min(maxp(e, &p)));
                     st.sent += 1;
                 }
+            } else if stale_quiet {
             } else if (e == 0 || both_dirs) && r.chance(if phased { 90 } else { send_prob }, 100) {
                 let n = r.range(1, send_burst);
                 for _ in 0..n {
